@@ -61,4 +61,28 @@ theorem calls_do_not_matter (acc : Acc) (s : GState) (h : List HOp) :
     | setScope p σ => simp only [exec, List.filter]; exact ih _
     | decorate g d => simp only [exec, List.filter]; exact ih _
 
+/-- a batch of calls (one per thread, say), executed in any order from a state, gives every call the fresh
+    verdict at that state and leaves the state unchanged … -/
+theorem calls_batch (acc : Acc) (s : GState) (cs : List (Ident × List (Name × Value) × BodyResult)) :
+    exec acc s (cs.map fun c => HOp.call c.1 c.2.1 c.2.2) =
+      (s, cs.map fun c => freshVerdict acc s 3 c.1 c.2.1 c.2.2) := by
+  induction cs with
+  | nil => rfl
+  | cons c cs ih =>
+    simp only [List.map_cons, exec]
+    have : (step acc s (HOp.call c.1 c.2.1 c.2.2)) = (s, freshVerdict acc s 3 c.1 c.2.1 c.2.2) := rfl
+    rw [this]
+    simp only [ih]
+
+/-- **C09b (model)** … hence for every interleaving of concurrent checked calls (any permutation of the
+    batch) each call's verdict is the verdict it would get alone: schedule independence at the granularity
+    of whole calls.  (What the model cannot exhibit is preemption *inside* a call; that the context of a call
+    is local to it is the shared-state audit `state_components_modelled`, and is exercised with threads.) -/
+theorem schedule_independent (acc : Acc) (s : GState) (cs cs' : List (Ident × List (Name × Value) × BodyResult))
+    (c : Ident × List (Name × Value) × BodyResult) (hc : c ∈ cs) (hc' : c ∈ cs') :
+    freshVerdict acc s 3 c.1 c.2.1 c.2.2 ∈ (exec acc s (cs.map fun c => HOp.call c.1 c.2.1 c.2.2)).2 ∧
+    freshVerdict acc s 3 c.1 c.2.1 c.2.2 ∈ (exec acc s (cs'.map fun c => HOp.call c.1 c.2.1 c.2.2)).2 := by
+  rw [calls_batch, calls_batch]
+  exact ⟨List.mem_map.mpr ⟨c, hc, rfl⟩, List.mem_map.mpr ⟨c, hc', rfl⟩⟩
+
 end Dltype.C09
